@@ -95,7 +95,7 @@ def to_obj(node, markers):
         return [to_obj(x, markers) for x in node]
     if not isinstance(node, ast.AST):
         return node
-    o = Obj(type(node).__name__)
+    o = Obj(type(node).__name__, closed=True)      # a node of a parsed probe: it has the fields of its class and nothing else
     for f in node._fields:
         o.attrs[f] = to_obj(getattr(node, f, None), markers)
     if isinstance(node, ast.Name):
